@@ -142,6 +142,9 @@ func (ts *TS) Close() {
 			}
 		}
 	}
+	if ts.T.DB != nil {
+		ts.T.DB.VerifClose()
+	}
 	os.RemoveAll(ts.Root)
 }
 
